@@ -8,6 +8,7 @@ res = {}
 for l in open(os.path.join(S, 'matrix.txt')):
     t = l.split()
     if len(t) >= 4 and t[0].startswith('C'): res.setdefault(t[0], []).append(t[3])
+nfif = sum(1 for l in open(os.path.join(S, 'matrix.txt')) if l.rstrip().endswith('no-failing-input-found'))
 rows = []
 for d in sorted(x for x in os.listdir(S) if x.startswith('C') and os.path.isdir(os.path.join(S, x))):
     m = json.load(open(os.path.join(S, d, 'meta.json')))
@@ -18,10 +19,16 @@ out = ['# Seeded changes and what detects them', '',
  '`patch.diff`, the agent\'s demonstration `demo.py` (fails with the change, passes without) and `meta.json`. Every change was confirmed by the builder',
  '(`tools/confirm_seed.sh`: demo without the change, demo with it, whole test suite with it: 92 passed + the one baseline failure). None is committed to /repo.',
  '`tools/seed_matrix.sh` applies each patch to /repo, runs the quick check of the property it breaks under seeds 0 1 2 and reverts (`matrix.txt` is its last output).', '',
- f'{len(rows)} changes; {sum(1 for v in res.values() for r in v if r == "rc=1")} of {sum(len(v) for v in res.values())} check runs report the violation.', '',
+ f'{len(rows)} changes; {sum(1 for v in res.values() for r in v if r == "rc=1")} of {sum(len(v) for v in res.values())} check runs report the violation'
+ f' ({nfif} of them as `no-failing-input-found`: a tie theorem or the correspondence broke and the search did not exhibit an input within the quick budget).',
+ 'C17 and C19 were run under seeds 0 1 only in the last matrix (their quick checks take a minute per run on a changed tree); two entries (C10-w9b, C17-w4) were re-measured',
+ 'after the corrections described in DESIGN 12.6.', '',
  '| seed | property | change | needs | quick check of its property (seeds 0,1,2) | history |', '|---|---|---|---|---|---|'] + rows
-out += ['', 'rc=1 = the check exits 1 with a `VIOLATION property=<id> replay=<path>` line whose replay file holds a concrete failing input found on the real code.',
+out += ['', 'rc=1 = the check exits 1 with a `VIOLATION property=<id> replay=<path>` line; the replay file holds a concrete failing input found on the real code, or (lines of matrix.txt ending in',
+ '`no-failing-input-found`) names the theorem / correspondence that no longer checks.',
  'Waves 1 and 2 (C01..C20): one change per property. Wave 3 (Cxx-w3): preferably two cooperating sites or state carried across calls. Wave 4 (Cxx-w4): unusual',
- 'but legal argument types and spellings, shared objects, boundary values, call order. Wave 5 (Cxx-w5): changes meant to survive a randomized differential test (coincidence of several conditions, size thresholds, less common entry points).']
+ 'but legal argument types and spellings, shared objects, boundary values, call order. Wave 5 (Cxx-w5): changes meant to survive a randomized differential test (coincidence of several conditions, size thresholds, less common entry points).',
+ 'Wave 6 (Cxx-w6): adversarial thresholds. Waves 7 to 11 (Cxx-w7a/b ... Cxx-w11a/b): plain brief (the property text only), two per property and wave; `first_try` in meta.json records what the checks',
+ 'of that moment reported on arrival, the history column what was missing when they did not (first-try rate of the last four waves: 24, 21, 25 and 24 of 40).']
 open(os.path.join(S, 'RESULTS.md'), 'w').write('\n'.join(out) + '\n')
 print(len(rows), 'rows')
